@@ -54,9 +54,9 @@ fn errno_of(e: &io::Error) -> i32 {
 }
 fn fmt_stat(st: &stat64) -> String {
     format!(
-        "dev={} ino={} mode={} nlink={} uid={} gid={} size={} rdev={} atime={}.{} mtime={}.{}",
+        "dev={} ino={} mode={} nlink={} uid={} gid={} size={} rdev={} atime={}.{} mtime={}.{} ctime={}.{} blksize={}",
         st.st_dev, st.st_ino, st.st_mode, st.st_nlink, st.st_uid, st.st_gid, st.st_size, st.st_rdev,
-        st.st_atime, st.st_atime_nsec, st.st_mtime, st.st_mtime_nsec
+        st.st_atime, st.st_atime_nsec, st.st_mtime, st.st_mtime_nsec, st.st_ctime, st.st_ctime_nsec, st.st_blksize
     )
 }
 fn now_secs() -> u64 {
